@@ -19,7 +19,8 @@ R2 wrapper shape of `recoverable`: the decorator returns the nested wrapper; the
    isinstance selection on Job / Step) None - nested fallbacks, flat guard clauses over a chained search and
    truthiness tests alike.  A look-up extracted into a function counts when every return of the (single) resolved
    callee is None or a value selected by `isinstance(.., <parameter>)` and the call site binds that parameter to
-   Job / Step (refactoring B20-1); `x = None; for a in ..: if isinstance(a, Step): x = a` counts through the facts
+   Job / Step (refactoring B20-1; a returned local is read through its reaching plain assignments and walrus bindings,
+   B32-1); `x = None; for a in ..: if isinstance(a, Step): x = a` counts through the facts
    dominating the assignment.
 R3 assembly order in `_recover` (CFG dominance, helpers extracted from `_recover` are followed):
    build_graph < create_graph_mapper < lock acquisition < _synchronize_workflows <
@@ -148,7 +149,6 @@ from ._util_D import (
     rcall,
     region,
     resolves_to,
-    returned_exprs,
     retry_allowed,
     stage_calls,
     strip,
@@ -351,6 +351,25 @@ def _isinstance_on(p, f, n, classes, cls_params=None):
     return q if q in classes else None
 
 
+def _lookup_returned(h, ret, depth: int = 3) -> list:
+    """`returned_exprs(.., with_stmt=True)` that also reads through assignment expressions: a returned bare local
+    whose definitions reaching the statement (flow-sensitive) are all whole plain assignments or walrus bindings
+    yields the bound expressions (`if (v := next(..)) is None: v = next(..)` / `return v`, refactoring B32-1).
+    Pairs (expression, node that evaluates it: a statement, or the NamedExpr)."""
+
+    def go(e, at, d, seen):
+        if isinstance(e, ast.Name) and d > 0 and e.id not in seen:
+            ds = reaching_defs(h, e.id, at)
+            if ds and all(x.kind in ("assign", "walrus") and x.index is None and x.value is not None and x.stmt is not None for x in ds):
+                out: list = []
+                for x in ds:
+                    out.extend(go(x.value, x.stmt, d - 1, seen | {e.id}))
+                return out
+        return [(e, at)]
+
+    return go(ret.value, ret, depth, frozenset()) if ret.value is not None else []
+
+
 def _selected_classes(p, f, e, classes, depth=2, cls_params=None) -> set:
     """Classes of `classes` by which expression `e` of `f` selects an argument: an `isinstance(.., C)` test inside the
     expression (`next((a for a in args if isinstance(a, C)), None)`), or - the look-up extracted into a function
@@ -389,13 +408,14 @@ def _selected_classes(p, f, e, classes, depth=2, cls_params=None) -> set:
         for r in [n for n in gh.nodes.values() if n.kind == "return"]:
             if r.ast.value is None:
                 continue
-            for v, at in returned_exprs(h, r.ast, with_stmt=True):
+            for v, at in _lookup_returned(h, r.ast):
                 v = strip(v)
                 if isinstance(v, ast.Constant) and v.value is None:
                     continue
                 got = _selected_classes(p, h, v, classes, depth - 1, cp)
                 if not got and isinstance(v, ast.Name):
-                    facts = path_facts(gh, r.id) + ([y for i in gh.ids_of(at) for y in path_facts(gh, i)] if at is not r.ast else [])
+                    at_ids = gh.ids_of(at) if isinstance(at, ast.stmt) else gh.node_containing(at)
+                    facts = path_facts(gh, r.id) + ([y for i in at_ids for y in path_facts(gh, i)] if at is not r.ast else [])
                     for fe, fv in facts:
                         c = _isinstance_on(p, h, fe, classes, cp)
                         if c is not None and fv is True and isinstance(fe.args[0], ast.Name) and fe.args[0].id == v.id:
@@ -1979,6 +1999,10 @@ _TOKEN_LIST_LOOP = ("        if %s:\n            available_tokens = []\n        
 _JOB_LOOKUP = _STEP_LOOKUP.replace("step :=", "job :=").replace("Step", "Job")
 _FIND_ARG = ("def _find_argument(cls: type, args: tuple, kwargs: dict):\n    for candidates in (args, kwargs.values()):\n        for arg in candidates:\n"
              "            if isinstance(arg, cls):\n                return arg\n    return None\n")
+_FIND_ARG_WALRUS = ("def _find_argument(cls, args, kwargs):\n"
+                    "    if (value := next((arg for arg in args if isinstance(arg, cls)), None)) is None:\n"
+                    "        value = next((arg for arg in kwargs.values() if isinstance(arg, cls)), None)\n"
+                    "    return value\n")
 _LOOKUPS_VIA_HELPER = ("        if (step := _find_argument(Step, args, kwargs)) is None:\n            raise ValueError('The wrapped function must take a `Step` object as argument')\n"
                        "        if (job := _find_argument(Job, args, kwargs)) is None:\n            raise ValueError('The wrapped function must take a `Job` object as argument')\n")
 _BUILD_GRAPH = "    await provenance.build_graph(inputs=[" + _PROV_INPUTS + "])\n"
@@ -2215,6 +2239,13 @@ VARIANTS = [
       append=_FIND_ARG.replace("            if isinstance(arg, cls):\n                return arg\n", "            if arg is not None:\n                return arg\n")),
     V("extracted look-up is asked for a Step where the Job is needed", REC_FILE, DECORATOR, _STEP_LOOKUP + _JOB_LOOKUP,
       _LOOKUPS_VIA_HELPER.replace("_find_argument(Job, args, kwargs)", "_find_argument(Step, args, kwargs)"), "R2", append=_FIND_ARG),
+    # ---- refactoring B32-1: the extracted look-up binds its result by a walrus in a test, falls back by assignment
+    V("extracted look-up: walrus over the positionals, keyword fall-back assigned, local returned", REC_FILE, DECORATOR, _STEP_LOOKUP + _JOB_LOOKUP,
+      _LOOKUPS_VIA_HELPER, None, append=_FIND_ARG_WALRUS),
+    V("walrus look-up helper: the keyword fall-back no longer tests the class", REC_FILE, DECORATOR, _STEP_LOOKUP + _JOB_LOOKUP, _LOOKUPS_VIA_HELPER, "R2",
+      append=_FIND_ARG_WALRUS.replace("(arg for arg in kwargs.values() if isinstance(arg, cls))", "(arg for arg in kwargs.values() if arg is not None)")),
+    V("walrus look-up helper: the positional pick no longer tests the class", REC_FILE, DECORATOR, _STEP_LOOKUP + _JOB_LOOKUP, _LOOKUPS_VIA_HELPER, "R2",
+      append=_FIND_ARG_WALRUS.replace("(arg for arg in args if isinstance(arg, cls))", "iter(args)")),
     # ---- refactoring B20-2: the provenance inputs assembled by list + extend over a bound local
     V("provenance inputs assembled by list() + extend() of the generators", FM_FILE, _REC, _BUILD_GRAPH, _BUILD_GRAPH_EXTEND, None),
     V("provenance inputs assembled by a loop with append under isinstance tests", FM_FILE, _REC, _BUILD_GRAPH, _BUILD_GRAPH_LOOP, None),
